@@ -225,6 +225,8 @@ def run_unit(tmpl, tier, seeds=(0, 1, 2)):
             pass
     out["cmd"] = res.cmd
     fails, undecided, canary_hits = classify(tmpl, asm, res)
+    for u in getattr(asm, "uncontracted", []):
+        undecided.append("function without a contract in a type whose invariant the unit relies on: %s" % u)
     out["verified"], out["functions"], out["smt_ms"] = res.verified, res.functions, res.smt_ms
     out["verus_version_ok"] = True
     missing = [c for c in canaries if c not in canary_hits]
